@@ -247,6 +247,28 @@ def stat_run(spec):
                 worst = (pv, 'state rows %s r=%d, observable %s: outcome 1 seen %d of %d times' % (ref.show_list(L[:N], K[:N]), r, ref.show(ol, ok), ones, per))
             check(pv >= P_REJECT, 'measurement coin on a mixed state is not fair: %s (p=%.3g)' % (worst[1], pv), 'coin-unfair')
         return {'cells': 2 * done, 'chi2': 0.0, 'p': worst[0], 'distinct': distinct}
+    if what in ('gate-forward', 'gate-backward'):
+        # a gate without maps applied forward / backward to the generators: the sampled map must be uniform over the 720 classes (N=2)
+        cm = Bk.mods()['c']
+        idx, ncell = _cells_clifford(N, False)
+        counts = np.zeros(ncell, dtype=np.int64)
+        g = cm.CliffordGate(*range(N))
+        idn = ref.RefClifford.identity(N)
+        nonprod = 0
+        for _ in range(n):
+            P = Bk.plist(idn.L, idn.K)
+            (g.forward if what == 'gate-forward' else g.backward)(P)
+            l, k = Bk.read_list(P)
+            i = idx.get(l.tobytes())
+            check(i is not None and (k % 2 == 0).all(), 'random gate produced an invalid map: %s' % ref.show_list(l, k), 'invalid-map')
+            counts[i] += 1
+            if not _is_product(ref.RefClifford(l, k)):
+                nonprod += 1
+                distinct.add(hash(l.tobytes()))
+        stat, p = chi2_p(counts, np.full(ncell, n / ncell))
+        check(p >= P_REJECT, 'map-less %d-qubit gate run %s: chi-square %.1f over %d classes, p=%.3g, %d classes never hit, entangling fraction %d/%d' % (
+            N, what.split('-')[1], stat, ncell, p, int((counts == 0).sum()), nonprod, n), 'not-uniform')
+        return {'cells': ncell, 'chi2': stat, 'p': p, 'distinct': distinct}
     if what == 'resample':
         # a gate without maps draws a fresh map at every call: consecutive images of Z on one qubit are independent and uniform over +-X,+-Y,+-Z
         cm = Bk.mods()['c']
@@ -300,13 +322,13 @@ def make_stat_facet(name, be, specs_quick, specs_thorough):
 
 NPQ = [{'what': 'clifford', 'N': 1, 'n': 24000}, {'what': 'clifford-signed', 'N': 1, 'n': 24000}, {'what': 'clifford', 'N': 2, 'n': 72000},
        {'what': 'pauli-map', 'N': 1, 'n': 12000}, {'what': 'pauli-map', 'N': 2, 'n': 40000}, {'what': 'pair', 'N': 1, 'n': 6000}, {'what': 'pair', 'N': 2, 'n': 24000},
-       {'what': 'signs', 'N': 2, 'n': 10000}, {'what': 'bitstate', 'N': 3, 'n': 10000}, {'what': 'coin', 'N': 2, 'n': 20000}, {'what': 'coin-mixed', 'N': 3, 'n': 12000}, {'what': 'coin-mixed', 'N': 2, 'n': 8000}, {'what': 'resample', 'N': 1, 'n': 10000}]
+       {'what': 'signs', 'N': 2, 'n': 10000}, {'what': 'bitstate', 'N': 3, 'n': 10000}, {'what': 'coin', 'N': 2, 'n': 20000}, {'what': 'coin-mixed', 'N': 3, 'n': 12000}, {'what': 'coin-mixed', 'N': 2, 'n': 8000}, {'what': 'resample', 'N': 1, 'n': 10000}, {'what': 'gate-forward', 'N': 2, 'n': 36000}, {'what': 'gate-backward', 'N': 2, 'n': 36000}]
 NPT = [{'what': 'clifford', 'N': 1, 'n': 240000}, {'what': 'clifford-signed', 'N': 1, 'n': 240000}, {'what': 'clifford', 'N': 2, 'n': 1500000},
        {'what': 'clifford-signed', 'N': 2, 'n': 1200000}, {'what': 'clifford', 'N': 2, 'n': 1500000}, {'what': 'clifford-signed', 'N': 2, 'n': 1200000},
        {'what': 'pauli-map', 'N': 1, 'n': 120000}, {'what': 'pauli-map', 'N': 2, 'n': 600000}, {'what': 'pair', 'N': 1, 'n': 60000}, {'what': 'pair', 'N': 2, 'n': 240000},
        {'what': 'pair', 'N': 3, 'n': 500000}, {'what': 'signs', 'N': 3, 'n': 100000}, {'what': 'bitstate', 'N': 4, 'n': 100000}, {'what': 'coin', 'N': 2, 'n': 400000}, {'what': 'coin-mixed', 'N': 2, 'n': 200000, 'configs': 200}, {'what': 'coin-mixed', 'N': 3, 'n': 300000, 'configs': 300}, {'what': 'coin-mixed', 'N': 4, 'n': 300000, 'configs': 300},
-       {'what': 'resample', 'N': 1, 'n': 200000}]
-TQ = [{'what': 'clifford', 'N': 1, 'n': 6000}, {'what': 'clifford', 'N': 2, 'n': 14400}, {'what': 'pauli-map', 'N': 2, 'n': 40000}, {'what': 'pair', 'N': 2, 'n': 6000}]
+       {'what': 'resample', 'N': 1, 'n': 200000}, {'what': 'gate-forward', 'N': 2, 'n': 720000}, {'what': 'gate-backward', 'N': 2, 'n': 720000}]
+TQ = [{'what': 'gate-backward', 'N': 2, 'n': 14400}, {'what': 'clifford', 'N': 1, 'n': 6000}, {'what': 'clifford', 'N': 2, 'n': 14400}, {'what': 'pauli-map', 'N': 2, 'n': 40000}, {'what': 'pair', 'N': 2, 'n': 6000}]
 TT = [{'what': 'clifford', 'N': 1, 'n': 60000}, {'what': 'clifford', 'N': 2, 'n': 200000}, {'what': 'clifford-signed', 'N': 1, 'n': 60000},
       {'what': 'pauli-map', 'N': 2, 'n': 120000}, {'what': 'pair', 'N': 2, 'n': 60000}, {'what': 'signs', 'N': 2, 'n': 40000}]
 
@@ -314,9 +336,9 @@ NP_KINDS = ['clifford_map', 'pauli_map', 'clifford_state', 'pauli_state', 'bit_s
 T_KINDS = ['clifford_map', 'pauli_map', 'clifford_state', 'pauli_state', 'brickwall', 'onsite', 'global']
 
 _np_stat = make_stat_facet('np/uniformity', 'np', NPQ, NPT)
-_np_stat.shards = {'quick': 7, 'thorough': 16}
+_np_stat.shards = {'quick': 8, 'thorough': 16}
 _t_stat = make_stat_facet('torch/uniformity', 'torch', TQ, TT)
-_t_stat.shards = {'quick': 4, 'thorough': 6}
+_t_stat.shards = {'quick': 5, 'thorough': 6}
 
 FACETS = [
     Facet('np/validity', f_validity, strategy=lambda t: st_validity('np', 8, NP_KINDS), examples={'quick': 3000, 'thorough': 200000}, shards={'quick': 2, 'thorough': 8}),
